@@ -7,7 +7,7 @@ R4 tracing -> log: a log record is emitted exactly under `no collector was ever 
 """
 from rulekit import Facts, where
 from rulekit.sym import PathEval, show
-from rulekit.query import guards_of
+from rulekit.query import guards_of, closure_of_term, norm_cmp
 
 TL = "tracing_log::"
 ORDER = ["Off", "Error", "Warn", "Info", "Debug", "Trace"]          # log crate: increasing verbosity
@@ -212,6 +212,14 @@ def r3(ck, F):
             conds = [(show(c[0]), c[1] != 0) for c in p.conds if c[0][0] != "const"]
             above = [v for t, v in conds if t.startswith("gt(as_trace(level(arg2)), current())")]
             ignored = [v for t, v in conds if t.startswith("starts_with(target(arg2)")]
+            # the prefix loop written as `ignore_crates.iter().any(|p| target.starts_with(p))`
+            for c in p.conds:
+                t0 = c[0]
+                if t0[0] == "call" and t0[1].endswith("::any") and "ignore_crates" in show(t0) and len(t0[2]) == 2:
+                    cb = F.body(closure_of_term(t0[2][1]) or "")
+                    rets = {show(q.ret) for q in PathEval(cb).run() if q.end == "return"} if cb else set()
+                    if len(rets) == 1 and list(rets)[0].startswith("starts_with(") and "target" in list(rets)[0]:
+                        ignored.append(c[1] != 0)
             r = show(p.ret)
             if above and above[0]:
                 if r != "0":
@@ -226,7 +234,12 @@ def r3(ck, F):
                     asked += 1
             if not above:
                 problems.append("a path does not compare the record's level with LevelFilter::current()")
-        cl = F.body("<%slog_tracer::LogTracer as log::Log>::enabled::{closure#0}" % TL)
+        cl = None
+        for p in PathEval(b, max_visits=3).run():
+            if p.end == "return" and p.ret and p.ret[0] == "call" and p.ret[1].endswith("get_default") and p.ret[2]:
+                cl = F.body(closure_of_term(p.ret[2][0]) or "")
+        if cl is None:
+            problems.append("cannot identify the closure handed to dispatch::get_default")
         if cl is not None:
             r = [show(p.ret) for p in PathEval(cl).run() if p.end == "return"]
             if not (len(r) == 1 and r[0].startswith("enabled(arg2, as_trace(arg1.metadata")):
@@ -308,7 +321,7 @@ def r4(ck):
             gt = {t: v for t, v in g}
             if gt.get("has_been_set()") != 0:
                 problems.append("a log record is emitted without checking that no collector was ever installed")
-            if not any(t.startswith("le(Level::%s{}, max_level())" % lvl) and v != 0 for t, v in g):
+            if not any((t.startswith("le(Level::%s{}, max_level())" % lvl) or t.startswith("ge(max_level(), Level::%s{})" % lvl)) and v != 0 for t, v in g):
                 problems.append("a log record is emitted without `level <= log::max_level()` for log level %s (guards %s)" % (lvl, sorted(t for t in gt if 'max_level' in t)))
             if not any(t.startswith("enabled(logger()") and v != 0 for t, v in g):
                 problems.append("a log record is emitted without asking logger.enabled()")
